@@ -198,6 +198,9 @@ type backendRun struct {
 // fresh tree (the database answered correctly; the tree object held stale positions).
 var liveStaleTotal int
 
+// liveDroppedExisting: long-lived trees not kept because their commit arrived at an existing root.
+var liveDroppedExisting int
+
 func (b *backendRun) dropLive() {
 	for k, t := range b.live {
 		t.Close()
@@ -408,6 +411,16 @@ func (b *backendRun) doCommit(w []string) (skip bool, opLines []string) {
 		}
 		defer func() {
 			if keep && hset {
+				// A tree object whose commit arrived at a root that ALREADY existed at this version (equal
+				// contents committed first by another tree) is not kept: the backend treats both commits as
+				// one root and keeps the first batch's nodes, so this object's positions describe nodes that
+				// were never written (see DESIGN.md 9.4, "stale positions"); C06 speaks about what the
+				// database answers under a root, every later commit on this root goes through a fresh tree.
+				if _, existed := b.rootCont[fmt.Sprintf("%d %d %d", v, t, b.ht.id(h))]; existed {
+					liveDroppedExisting++
+					tr.Close()
+					return
+				}
 				if old, ok := b.live[tag]; ok {
 					old.Close()
 				}
@@ -1507,7 +1520,7 @@ func main() {
 			os.Exit(2)
 		}
 		runOne(ops, 0, os.Getenv("VERIF_SHRINK_REPLAY") != "", true)
-		res.CountN("live-tree:stale-positions:commit-repeated-through-a-fresh-tree", liveStaleTotal); res.Write(*out)
+		res.CountN("live-tree:stale-positions:commit-repeated-through-a-fresh-tree", liveStaleTotal); res.CountN("live-tree:not-kept-after-commit-of-an-existing-root", liveDroppedExisting); res.Write(*out)
 		return
 	}
 	if *corpus != "" {
@@ -1576,5 +1589,5 @@ func main() {
 		_ = before
 		_ = runOne
 	}
-	res.CountN("live-tree:stale-positions:commit-repeated-through-a-fresh-tree", liveStaleTotal); res.Write(*out)
+	res.CountN("live-tree:stale-positions:commit-repeated-through-a-fresh-tree", liveStaleTotal); res.CountN("live-tree:not-kept-after-commit-of-an-existing-root", liveDroppedExisting); res.Write(*out)
 }
